@@ -155,6 +155,14 @@ def standin(rep: Report):
         cases.append({"src": f"$(echo @({cons}))\n", "py": f"__xonsh__.subproc_captured('echo', *__xonsh__.list_of_strs_or_callables({py}))\n", "construct": None})
     for src, py, cons in TARGETS:
         cases.append({"src": src, "py": py, "construct": cons, "target": True})
+    # a construct continued on the next line: every alignment of the continuation line against the end column of the piece before it
+    for pre in ["", "x = ", "xy = ", "xyzw = ", "f(", "r = [1, "]:
+        post = {"f(": ")", "r = [1, ": "]"}.get(pre, "")
+        for k in range(0, 15):
+            pad = " " * k
+            cases.append({"src": f"{pre}$(ls\n{pad}-l){post}\n", "py": f"{pre}__xonsh__.subproc_captured('ls', '-l'){post}\n", "construct": None})
+            cases.append({"src": f"{pre}![echo $H\n{pad}/tmp]{post}\n", "py": f"{pre}__xonsh__.subproc_captured_hiddenobject('echo', __xonsh__.env['H'], '/tmp'){post}\n",
+                          "construct": None})
     rc, out, err = run_py("harness/desugar.py", [], timeout=1800, stdin=json.dumps({"op": "c05", "cases": cases}))
     si = StandIn("desugar-vs-written-out", f"{len(cases)} programs: {len(CONSTRUCTS)} constructs x {len(CONTEXTS)} expression contexts, nesting depth 2, {len(TARGETS)} binding-target forms; "
                  "tree (positions ignored) == ast.parse of the program with the documented translation written out; construct node spans the construct text")
